@@ -186,7 +186,7 @@ Definition model_query (i : input) (q : query) : list row :=
         | None => select p rows
         end
   | QGroup tbl snap c => group_count c (nth tbl (tables_of i snap) [])
-  | QCount tbl snap kl col => [[Some (count_fast_path kl col (nth tbl (tables_of i snap) []))]]
+  | QCount tbl snap kl col => [[Some (count_answer kl col (nth tbl (tables_of i snap) []))]]
   | QJoin plan lo snap lt rt lc rc rw ord =>
       let lrows := nth lt (tables_of i snap) [] in
       let rrows := nth rt (tables_of i snap) [] in
